@@ -34,7 +34,11 @@ RULE = ("cases = (base class, base hyper-parameters, beta_lower, tau, phi, data 
         "tier, >= 70000 rows in the thorough tier): non-trivial when one edge count reaches the stream length.  Plus "
         "histories whose training call is `fit_gif` (BaseART's loop with a frame per sample; 6-14 rows of 2 features, "
         "tau in 2..4, on a new estimator / after a fit / followed by partial_fit; model + oracle): non-trivial when a "
-        "pruning round inside the fit_gif call removes a category")
+        "pruning round inside the fit_gif call removes a category.  Plus histories with plotting calls (model + oracle): "
+        "`fit_gif` with a palette (n_cluster_estimate 1..2) smaller than the number of categories alive at a frame, "
+        "`visualize` (the estimator's own labels_ / a copy; 1-2 colours, the default palette, a long one) and "
+        "`plot_cluster_bounds` between training calls: non-trivial when a presented sample carries a label >= the "
+        "number of colours at the plotting call (fit_gif: and a pruning round follows)")
 
 UNREC = 1000000
 
@@ -463,6 +467,72 @@ def oracle_prune(ctx, rec: Rec, st: dict, cls: str, rep: dict, phi: int):
         ctx.issue("violation", f"{tag}:labels-beyond-X", f"step {st['g']}", repl)
 
 
+def track_labels(ctx, rec: Rec, track: list, st: dict, post: dict, entry: str, cls: str, rep: dict):
+    """"all sample labels are re-indexed consistently", end to end over the whole history: the label of EVERY sample
+    presented so far is the category its own step returned, carried through every pruning round since (its index among
+    the survivors; re-predicted when the category was removed; -1 when nothing survived) — whatever else was called in
+    between (frames of fit_gif, visualize, predict).  `track` holds those expected labels; the survivors of a round are
+    read off the identity of the weight objects (not off labels_).  Returns the new track (None: tracking stops)."""
+    m, base = rec.m, rec.base
+    track = track + [st["ret"]]
+    if st["prune"] is not None:
+        _, post_p, kept_pos, nrows = st["prune"]
+        if None in kept_pos or entry == "partial_fit":
+            return None
+        X = rep["_Xfit"]
+        new = []
+        for i, l in enumerate(track):
+            if i >= nrows:
+                new.append(l)
+            elif l in kept_pos:
+                new.append(kept_pos.index(l))
+            elif kept_pos:
+                with quiet():
+                    T = [float(cls_call(base, "category_choice", X[i], w, m.params)[0]) for w in post_p["Wv"]]
+                new.append(int(np.argmax(T)))
+            else:
+                new.append(-1)
+        track = new
+    got = post["labels"][:len(track)]
+    if len(got) != len(track):
+        return None
+    if got != track:
+        rows = [i for i in range(len(track)) if got[i] != track[i]]
+        ctx.issue("violation", f"TopoART[{cls}].{entry}:labels-are-not-the-step-results-carried-through-the-rounds",
+                  f"after the cycle of step {st['g']} (|W|={len(post['Wv'])}): rows {rows[:8]} carry labels "
+                  f"{[got[i] for i in rows[:8]]}; the categories their steps returned, re-indexed by every pruning round "
+                  f"since, are {[track[i] for i in rows[:8]]} (labels_ {got}, expected {track})",
+                  {k: v for k, v in dict(rep, step=st["g"]).items() if k != "_Xfit"})
+        return list(got)            # report each departure once
+    ctx.cov.hit("labels=step-results-carried-through-all-rounds")
+    return track
+
+
+def oracle_quiescent(ctx, rec: Rec, last, track, now: dict, cls: str, what: str, rep: dict) -> bool:
+    """The statement names the only events that change the five parallel structures: a sample's cycle (two-winner
+    step, label write, pruning round).  Hence between two cycles — across predict, visualize, plot_cluster_bounds, and
+    from the end of one training call to the first sample of a continuing partial_fit — weights, counters, permanence
+    flags, adjacency and the labels of the samples presented so far are what the last cycle left."""
+    if last is None:
+        return True
+    bad = [k for k in ("W", "cnt", "n", "adj", "perm") if now[k] != last[k]]
+    nl = len(last["labels"])
+    if now["labels"][:nl] != last["labels"]:
+        bad.append("labels")
+    elif track is not None and now["labels"][:len(track)] != track:
+        bad.append("labels")
+    if bad:
+        rows = [i for i in range(min(nl, len(now["labels"]))) if now["labels"][i] != last["labels"][i]]
+        ctx.issue("violation", f"TopoART[{cls}].{what}:state-changed-outside-a-sample's-cycle",
+                  f"{what} (no sample presented) changed {bad}: " +
+                  (f"labels_ of rows {rows[:8]} {[last['labels'][i] for i in rows[:8]]} -> {[now['labels'][i] for i in rows[:8]]} "
+                   f"(|W|={len(now['Wv'])}); " if "labels" in bad else "") +
+                  "; ".join(f"{k} {last[k]} -> {now[k]}" for k in bad if k != "labels")[:400], rep)
+        return False
+    ctx.cov.hit(f"state-unchanged-outside-training:{what}")
+    return True
+
+
 # ------------------------------------------------------------------ cases
 
 
@@ -604,13 +674,15 @@ def _matplotlib():
         return None
 
 
-def fit_gif_call(m, B, **kw):
-    """est.fit_gif through the public API: Agg backend, small figure, the gif in a temporary directory"""
+def fit_gif_call(m, B, palette=None, **kw):
+    """est.fit_gif through the public API: Agg backend, small figure, the gif in a temporary directory; `palette` =
+    n_cluster_estimate (default: more colours than rows)"""
     import tempfile
     matplotlib, plt = _matplotlib()
     with tempfile.TemporaryDirectory(prefix="artv-c14-gif-") as tmp, matplotlib.rc_context({"figure.figsize": (1.0, 1.0)}):
         try:
-            m.fit_gif(B, filename=f"{tmp}/topo.gif", n_cluster_estimate=len(B) + 1, fps=50, **kw)
+            m.fit_gif(B, filename=f"{tmp}/topo.gif", n_cluster_estimate=len(B) + 1 if palette is None else palette,
+                      fps=50, **kw)
         finally:
             plt.close("all")
 
@@ -703,6 +775,139 @@ def make_gif_case(ctx, i: int, seed=None):
     return best
 
 
+# ------------------------------------------------------------------ plotting calls inside a history
+#
+# A history of the property may contain calls that present no sample: `predict`, and the plotting routines
+# (`visualize`, `plot_cluster_bounds`, the frame `fit_gif` draws after every sample with the estimator's OWN `labels_`
+# array).  The cases above draw every fit_gif frame with more colours than rows; here the palette is SMALLER than the
+# number of categories alive at a frame (`n_cluster_estimate` 1..2, i.e. 2..3 colours) and a pruning round follows, or
+# `visualize` / `plot_cluster_bounds` is called between two training calls with the estimator's own labels_ (or a
+# copy) and a colour list of 1..2 entries / the default palette / a long one.  Oracle: the same per-sample clauses,
+# plus the end-to-end label clause (`track_labels`) and `oracle_quiescent` across every call that presents no sample.
+# Each case is picked by a pilot without drawing (fit instead of fit_gif) among a few candidates: one in which a
+# presented sample carries a label >= the number of colours at the plotting call.
+
+VIZ_HOWS = ["visualize:own-labels:short-colors", "visualize:own-labels:default-colors", "visualize:own-labels:short-colors",
+            "plot_cluster_bounds::short-colors", "visualize:copied-labels:short-colors", "visualize:own-labels:long-colors",
+            "visualize:own-labels:short-colors"]
+VIZ_PALETTE = ["r", "g", "b", "c", "m", "y", "k"]
+
+
+def viz_call(m, rows, how: str, ncol: int):
+    """one plotting call through the public API (Agg backend, small figure)"""
+    matplotlib, plt = _matplotlib()
+    what, whose, pal = how.split(":")
+    with matplotlib.rc_context({"figure.figsize": (1.0, 1.0)}):
+        try:
+            _, ax = plt.subplots()
+            n = ncol if pal == "short-colors" else len(m.W) + 3
+            colors = None if pal == "default-colors" else [VIZ_PALETTE[k % len(VIZ_PALETTE)] for k in range(n)]
+            if what == "plot_cluster_bounds":
+                m.plot_cluster_bounds(ax, colors)
+            else:
+                y = m.labels_ if whose == "own-labels" else np.array(m.labels_)
+                m.visualize(rows, y, ax=ax, colors=colors)
+        finally:
+            plt.close("all")
+
+
+def _plot_candidate(r, cls: str, i: int, flow: str):
+    mode = r.choice(MODES)
+    tau = r.randint(3, 6)
+    phi = r.randint(2, min(tau, 3)) if r.random() < 0.8 else 1
+    has_reset = r.random() < 0.2
+    eps = r.choice([0.0, 2.0 ** -20, 2.0 ** -10, 0.125])
+    bspec = specs.elem_spec(r, cls, 2)
+    if r.random() < 0.8:                         # high vigilance: more categories than colours
+        bspec["rho"] = r.choice([0.75, 0.875, 0.9375, 1.0])
+    beta = bspec["beta"]
+    beta_lower = r.choice([beta, beta / 2, beta / 4, 0.0])
+    n = r.randint(8, 14)
+    extra = r.randint(2, 6)
+    pool = specs.elem_data(r, cls, r.randint(5, 9), 2, floats=r.random() < 0.3)
+    if cls == "ART2A":
+        pool = pool[np.any(pool != 0, axis=1)] if np.any(pool != 0) else pool
+    ndense = r.randint(min(3, len(pool)), max(min(3, len(pool)), (2 * len(pool)) // 3))
+    idx = [r.randrange(ndense) if r.random() < 0.7 else r.randrange(len(pool)) for _ in range(n + extra)]
+    X = np.array(pool[idx], dtype=float)
+    total = n + extra
+    palette = None
+    ncol = r.choice([1, 2, 2])
+    how = VIZ_HOWS[(i // 2) % len(VIZ_HOWS)]
+    viz = ("viz", how, ncol)
+    if flow == "gif":
+        palette = r.choice([1, 1, 2])            # n_cluster_estimate: palette + 1 colours
+        ncol = palette + 1
+        style = r.choice(["gif", "gif", "gif-pfit", "fit-gif"])
+        calls = {"gif": [("gif", 0, n), ("pred", 0, min(n, 3))],
+                 "gif-pfit": [("gif", 0, n), ("pfit", n, total), ("pred", 0, min(total, 3))],
+                 "fit-gif": [("fit", n, total), ("gif", 0, n)]}[style]
+    else:
+        k = r.randint(2, n - 1)
+        style = r.choice(["fit-viz-pfit", "fit-viz-pfit", "pfit-viz-pfit", "fit-pfit-viz-pfit", "fit-viz-pred-viz-pfit"])
+        calls = {"fit-viz-pfit": [("fit", 0, n), viz, ("pfit", n, total), ("pred", 0, min(total, 3))],
+                 "pfit-viz-pfit": [("pfit", 0, k), viz, ("pfit", k, n), ("pred", 0, min(n, 3))],
+                 "fit-pfit-viz-pfit": [("fit", 0, k), ("pfit", k, n), viz, ("pfit", n, total)],
+                 "fit-viz-pred-viz-pfit": [("fit", 0, n), viz, ("pred", 0, min(n, 3)), viz, ("pfit", n, total)]}[style]
+    nsteps = sum(hi - lo for kd, lo, hi in calls if kd in ("fit", "pfit", "gif"))
+    vt = gen.veto_table(r, nsteps, nsteps + 1) if has_reset else None
+    spec = {"cls": "TopoART", "base_module": bspec, "beta_lower": float(beta_lower), "tau": tau, "phi": phi}
+    return dict(i=i, cls=cls, mode=mode, eps=eps, spec=spec, X=X, calls=calls, vt=vt, tau=tau, phi=phi,
+                style=style, plot=True, flow=flow, palette=palette, ncol=ncol)
+
+
+def _plot_pilot(case: dict):
+    """the history without drawing (fit for fit_gif, plotting calls skipped) -> (plotting calls / frames at which a
+    presented sample carries a label >= the number of colours, pruning rounds after the first such frame, of which
+    remove a category); zeros when the pilot raises"""
+    ncol = case["ncol"]
+    over = rounds = removing = 0
+    try:
+        with quiet():
+            m = make(case["spec"])
+            rec = Rec(m, case["vt"])
+            reset = rec.reset_func() if case["vt"] is not None else None
+            kw = dict(match_reset_func=reset, match_tracking=case["mode"], epsilon=case["eps"])
+            for kd, lo, hi in case["calls"]:
+                if kd == "viz":
+                    short = lo.endswith("short-colors") and lo.startswith("visualize")
+                    over += 1 if any(t >= (ncol if short else 1) for t in m.labels_) else 0
+                elif kd in ("fit", "gif"):
+                    rec.steps = []
+                    m.fit(case["X"][lo:hi], **kw)
+                    if kd == "gif":
+                        steps = rec.steps
+                        posts = [s["pre"] for s in steps[1:]] + [rec.snap()]
+                        for k, (st, post) in enumerate(zip(steps, posts)):
+                            if over and st["prune"] is not None:
+                                rounds += 1
+                                removing += 1 if len(st["prune"][1]["Wv"]) < len(st["prune"][0]["Wv"]) else 0
+                            over += 1 if any(t >= ncol for t in post["labels"][:k + 1]) else 0
+                elif kd == "pfit":
+                    m.partial_fit(case["X"][lo:hi], **kw)
+    except Exception:
+        return 0, 0, 0
+    return over, rounds, removing
+
+
+def make_plot_case(ctx, i: int, seed=None):
+    seed = ctx.seed if seed is None else seed
+    r = gen.rng_for(seed, "C14-plot", i)
+    cls = specs.HAS_BETA[(i + seed) % 4]
+    flow = "gif" if i % 7 in (0, 3) else "viz"
+    best, best_key = None, None
+    for _ in range(10):
+        cand = _plot_candidate(r, cls, i, flow)
+        score = _plot_pilot(cand)
+        key = (min(score[0], 1), min(score[1], 1), score[2], score[0]) if flow == "gif" else (score[0],)
+        if best_key is None or key > best_key:
+            best, best_key, best_score = cand, key, score
+        if key[0] >= 1 and (flow == "viz" or key[1] >= 1):
+            break
+    best["seed"], best["pilot"] = seed, best_score
+    return best
+
+
 def run_case(ctx, case: dict):
     """drive the implementation; returns (protocol line, per-call expectations) or None"""
     cov = ctx.cov
@@ -715,6 +920,12 @@ def run_case(ctx, case: dict):
         rep["reconf"], rep["seed"] = True, case["seed"]
     if case.get("gif"):
         rep["gif"], rep["seed"] = True, case["seed"]
+    if case.get("plot"):
+        rep["plot"], rep["seed"], rep["n_cluster_estimate"] = True, case["seed"], case["palette"]
+    track = None                   # expected labels of the rows presented so far (track_labels)
+    last = None                    # the state the last call left (oracle_quiescent)
+    shown: list = []               # (lo, hi) ranges of X behind labels_
+    overflowed = False             # a fit_gif frame was drawn with fewer colours than a presented sample's label
     reassigned: list = []          # hyper-parameters re-assigned so far (by attribute assignment)
     seconds_before = 0             # second-winner updates before the first re-assignment
     try:
@@ -728,7 +939,26 @@ def run_case(ctx, case: dict):
     parts = []
     nontrivial = False
     for kd, lo, hi in calls:
-        B = X[lo:hi] if kd != "set" else None
+        B = X[lo:hi] if kd not in ("set", "viz") else None
+        if kd == "viz":
+            # a plotting call between two training calls: presents no sample
+            how, ncol = lo, hi
+            rows = np.concatenate([X[a:b] for a, b in shown]) if shown else X[:0]
+            if last is None or "labels_" not in m.__dict__ or len(rows) != len(m.labels_):
+                cov.hit("plot:skipped(no-trained-state)")
+                continue
+            over = bool(len(m.labels_)) and int(np.max(m.labels_)) >= (ncol if how.endswith("short-colors") else len(m.W) + 3)
+            try:
+                with quiet():
+                    viz_call(m, rows, how, ncol)
+                cov.hit(f"plot:{how}:drawn" + (":a-label>=number-of-colours" if over else ""))
+            except Exception as e:
+                cov.hit(f"plot:{how}:raised:{exc_enum(e)}")          # tolerated: the property does not speak about drawing
+            now = rec.snap()
+            if not oracle_quiescent(ctx, rec, last, track, now, cls, how.split(":")[0], dict(rep, after_call=[kd, lo, hi])):
+                track = now["labels"][:len(track)] if track is not None else None
+            last = now
+            continue
         if kd == "pred":
             xids = [rec.xi(x) for x in B]
             try:
@@ -739,6 +969,11 @@ def run_case(ctx, case: dict):
                 expect.append(("pred", None, exc_enum(e)))
                 if len(m.W) == 0:
                     cov.hit("predict-on-emptied-model-raises(F14,C08)")
+            if last is not None:
+                now = rec.snap()
+                if not oracle_quiescent(ctx, rec, last, track, now, cls, "predict", dict(rep, after_call=[kd, lo, hi])):
+                    track = now["labels"][:len(track)] if track is not None else None
+                last = now
             parts.append("pred " + (",".join(map(str, xids)) if xids else "-"))
             continue
         if kd == "set":
@@ -776,7 +1011,7 @@ def run_case(ctx, case: dict):
                 if kd == "fit":
                     m.fit(B, match_reset_func=reset, match_tracking=mode, epsilon=eps)
                 elif kd == "gif":
-                    fit_gif_call(m, B, match_reset_func=reset, match_tracking=mode, epsilon=eps)
+                    fit_gif_call(m, B, palette=case.get("palette"), match_reset_func=reset, match_tracking=mode, epsilon=eps)
                 else:
                     m.partial_fit(B, match_reset_func=reset, match_tracking=mode, epsilon=eps)
         except Exception as e:
@@ -808,7 +1043,24 @@ def run_case(ctx, case: dict):
         if kd == "pfit" and steps:
             wiped = -1 in steps[0]["pre"]["labels"]      # inherited from an earlier fit
         repo = dict(rep, _Xfit=B)
+        shown = [(lo, hi)] if fitlike else shown + [(lo, hi)]
+        if fitlike:
+            track = []
+        elif steps:
+            # a continuing partial_fit starts from the state the last call left (labels_ padded for the new rows)
+            if not oracle_quiescent(ctx, rec, last, track, steps[0]["pre"], cls, "between-training-calls", rep):
+                track = None
+            if track is None or len(track) != base_rows:
+                track = steps[0]["pre"]["labels"][:base_rows] if last is not None or base_rows == 0 else None
         for k, (st, post) in enumerate(zip(steps, posts)):
+            if track is not None:
+                track = track_labels(ctx, rec, track, st, post, entry, cls, repo)
+            if kd == "gif" and case.get("palette") is not None:
+                if overflowed and st["prune"] is not None:
+                    cov.hit("fit_gif:pruning-round-after-a-frame-with-fewer-colours-than-categories")
+                if any(t >= case["palette"] + 1 for t in post["labels"][:k + 1]):
+                    overflowed = True
+                    cov.hit("fit_gif:frame-with-fewer-colours-than-categories")
             if st["prune"] is not None:
                 nontrivial = nontrivial or not case.get("gif")
                 oracle_prune(ctx, rec, st, cls, repo, phi)
@@ -857,6 +1109,9 @@ def run_case(ctx, case: dict):
                       f"{cls} {spec['base_module']})", rep)
             cov.case((cls, spec, X.tolist(), calls, mode, eps, vt), False)
             return None
+        last = fin
+    if case.get("plot"):
+        nontrivial = bool(case["pilot"][0] and (case["flow"] == "viz" or case["pilot"][1]))
     if reconf:
         # no model line: the Lean history carries one (tau, phi) and one lower rate per (x, w)
         cov.case((cls, spec, X.tolist(), calls, mode, eps, vt), nontrivial)
@@ -1209,6 +1464,28 @@ def run_gif(ctx):
         compare(ctx, case, line, out, expect, rep)
 
 
+def run_plot(ctx):
+    if _matplotlib() is None:
+        ctx.cov.hit("plot:matplotlib-missing")
+        return
+    lines, meta = [], []
+    for i in range(ctx.scale(14, 140)):
+        case = make_plot_case(ctx, i)
+        ctx.cov.hit(f"plot:pilot:{case['flow']}:" + ("no-label>=number-of-colours-found" if not case["pilot"][0] else
+                                                    "label>=number-of-colours" + (":then-pruning-round" if case["pilot"][1] else "")
+                                                    + (":that-removes" if case["pilot"][2] else "")))
+        res = run_case(ctx, case)
+        if res is None:
+            continue
+        line, expect, rep = res
+        ctx.cov.hit(f"plot:{case['cls']}")
+        ctx.cov.hit(f"plot:history:{case['style']}")
+        lines.append(line)
+        meta.append((case, expect, rep))
+    for line, out, (case, expect, rep) in zip(lines, run_driver(lines) if lines else [], meta):
+        compare(ctx, case, line, out, expect, rep)
+
+
 def prepare(ctx):
     """Translator tie (see gen_tie.py): the source of this slice is re-translated to Lean on every run
     (harness/artv/ttrans.py) and proved equal to the model the property theorems are about"""
@@ -1239,6 +1516,8 @@ def run(ctx):
     run_long(ctx)
     # histories whose training call is fit_gif, with pruning rounds during the call (model + oracle)
     run_gif(ctx)
+    # plotting calls inside histories: small fit_gif palettes, visualize / plot_cluster_bounds between training calls
+    run_plot(ctx)
     ctx.trusted.append("kernel tables: base-module kernel results interned by bytes at the call boundary (harness)")
     ctx.assumptions.append("weights are compared by value through interning; arithmetic of the kernels is C03's subject")
 
@@ -1252,9 +1531,10 @@ def replay(ctx, payload):
         if case is not None:
             run_long_case(ctx, case)
         return 0
-    if rep.get("gif") and _matplotlib() is None:
+    if (rep.get("gif") or rep.get("plot")) and _matplotlib() is None:
         return 0
     case = (make_reconf_case(ctx, int(rep["case"]), rep.get("seed")) if rep.get("reconf")
+            else make_plot_case(ctx, int(rep["case"]), rep.get("seed")) if rep.get("plot")
             else make_gif_case(ctx, int(rep["case"]), rep.get("seed")) if rep.get("gif")
             else make_case(ctx, int(rep["case"])))
     res = run_case(ctx, case)
